@@ -358,6 +358,12 @@ package pongo2
 //@   pure as VIsBool
 //@ func (*Value).IsNil
 //@   pure as VIsNil
+// the escape-on-output decision asks isStringer whether String() hands out the text of the value's own String
+// method; both must look at the same thing, the value as it was stored
+//@ func (*Value).isStringer
+//@   ensures {C02} @true-exactly-when-String-delegates-to-the-values-own-method r0 == (!VIsNil(v) && implements(VInterface(v), "fmt.Stringer"))
+//@ func (*Value).String
+//@   at fmt.Stringer.String requires {C02} @delegates-for-the-value-isStringer-looked-at !VIsNil(v) && arg0 == VInterface(v)
 
 // a template belongs to the set that compiled it; sub-templates belong to the set of the referring template
 //@ func newTemplate
@@ -1235,6 +1241,14 @@ package pongo2
 //@   ensures len(r0) == TypeNumOut(RVType(v)) && fresh(r0)
 //@ iface reflect.Type.AssignableTo(recv, u) (r0)
 //@   ensures r0 == TypeAssignable(recv, u)
+// a value may be handed to a function parameter only if its dynamic type is assignable to the parameter's type
+// (nil only to an interface-typed parameter): that is reflect's panic condition for Call, checked here per argument
+//@ extern reflect.TypeOf(i) (r0)
+//@   pure as TypeOfIface
+//@ func argumentFits
+//@   requires {C01,C08} @a-parameter-type fnArg != nil
+//@   ensures {C01,C08} @fits-means-assignable-to-the-parameter r0 ==> ((TypeOfIface(VInterface(pv)) == nil && TypeKind(fnArg) == 20) || (TypeOfIface(VInterface(pv)) != nil && TypeAssignable(TypeOfIface(VInterface(pv)), fnArg)))
+//@   ensures {C08} @the-parameters-own-type-always-fits (TypeOfIface(VInterface(pv)) == fnArg) ==> r0
 //@ iface reflect.Type.Key(recv) (r0)
 //@   requires {C01,C08} @map-type TypeKind(recv) == 21
 //@   ensures r0 == TypeKeyOf(recv) && r0 != nil
